@@ -117,6 +117,26 @@ theorem sum_map_eraseP_find {α : Type} (l : List α) (p : α → Bool) (h : α 
       simp only [List.eraseP_cons, ha, cond_false, List.map_cons, List.sum_cons]
       omega
 
+theorem eq_of_nodup_map {α : Type} {l : List α} {id : α → Nat} (hn : (l.map id).Nodup) {x y : α}
+    (hx : x ∈ l) (hy : y ∈ l) (h : id x = id y) : x = y := by
+  induction l with
+  | nil => cases hx
+  | cons a t ih =>
+    simp only [List.map_cons, List.nodup_cons] at hn
+    rcases List.mem_cons.mp hx with rfl | hx' <;> rcases List.mem_cons.mp hy with rfl | hy'
+    · rfl
+    · exfalso; apply hn.1; exact List.mem_map.mpr ⟨y, hy', h.symm⟩
+    · exfalso; apply hn.1; exact List.mem_map.mpr ⟨x, hx', h⟩
+    · exact ih hn.2 hx' hy'
+
+theorem sum_map_zero {α : Type} (l : List α) (h : α → Nat) (h0 : ∀ x ∈ l, h x = 0) :
+    (l.map h).sum = 0 := by
+  induction l with
+  | nil => rfl
+  | cons a t ih =>
+    simp only [List.map_cons, List.sum_cons, h0 a List.mem_cons_self,
+      ih (fun x hx => h0 x (List.mem_cons_of_mem _ hx))]
+
 theorem find_id_mem {α : Type} {l : List α} {id : α → Nat} {f : Nat} {x : α}
     (h : l.find? (fun y => id y == f) = some x) : x ∈ l ∧ id x = f := by
   have h1 := List.mem_of_find?_eq_some h
